@@ -390,3 +390,953 @@ Proof.
   apply (new_obj_InvC g ls t l 0 0 g2 x p r HI Hl N).
 Qed.
 
+
+Ltac eqcase a b :=
+  let Heq := fresh "Heq" in let Hne := fresh "Hne" in
+  destruct (Nat.eq_dec a b) as [Heq|Hne];
+  [ subst; rewrite ?Nat.eqb_refl in *
+  | let H := fresh "Hb" in pose proof (proj2 (Nat.eqb_neq a b) Hne) as H; rewrite ?H in *;
+    let H2 := fresh "Hb" in pose proof (proj2 (Nat.eqb_neq b a) (not_eq_sym Hne)) as H2; rewrite ?H2 in * ].
+
+Lemma arefs_le_irefs o st : cnt o (flat_map arefs st) <= cnt o (flat_map irefs st).
+Proof.
+  induction st as [|i st IH]; cbn [flat_map]; [lia|]. rewrite !cnt_app.
+  assert (cnt o (arefs i) <= cnt o (irefs i)); [|lia].
+  destruct i; cbn [arefs irefs]; rewrite ?cnt_nil; try lia. destruct (src =? SRC_DROP); rewrite ?cnt_nil; lia.
+Qed.
+Lemma tot_arefs_le o ls : tot arefs o ls <= tot irefs o ls.
+Proof. unfold tot. apply sum_mono. intros x _. apply arefs_le_irefs. Qed.
+
+Lemma slot_get_ext s l x : slot_get s l = Some x -> cnt x (map snd l) >= 1.
+Proof. intros H. pose proof (slot_del_ext s l x H x) as E. rewrite Nat.eqb_refl in E. lia. Qed.
+
+Lemma keep_InvC g ls s x : InvC g ls -> tot arefs x ls >= 1 ->
+  InvC (set_slots (inc_rc g x) ((s, x) :: slots g)) ls.
+Proof.
+  intros HI Ha.
+  pose proof (C_rc _ _ HI) as HR. pose proof (C_life _ _ HI) as HL. pose proof (C_cons _ _ HI) as HC.
+  pose proof (C_reaped _ _ HI) as HP. pose proof (C_dead _ _ HI) as HD.
+  pose proof (tot_arefs_le x ls) as LE.
+  constructor; unfold ext, dcnt, created in *; cbn -[cnt tot].
+  - intros o. rewrite cnt_cons. unfold fupd. rewrite (Nat.eqb_sym o x). eqcase x o; rewrite (HR o); lia.
+  - intros o. specialize (HL o). unfold fupd. eqcase o x; [|exact HL].
+    pose proof (HR x). destruct (Nat.eqb_spec (rc g x) 0); [lia|]. exact HL.
+  - exact HC.
+  - intros o Ho. destruct (HP o Ho) as [A [B [C [D F]]]]. rewrite cnt_cons. unfold fupd.
+    assert (o <> x) by (intros ->; lia). eqcase o x; [congruence|]. repeat split; auto.
+  - exact HD.
+Qed.
+
+Lemma exec_InvC g ls t l i st c g' r' push es p :
+  InvC g ls -> nth_error ls t = Some l -> stk l = i :: st ->
+  exec t c g (rv l) i = Some (g', r', push, es) ->
+  InvC g' (upd ls t (Loc p (push ++ st) r')).
+Proof.
+  intros HI Hl Hs Hx.
+  pose proof (fun f o => TS ls t l i st r' push p Hl Hs f o) as TSv.
+  pose proof (fun f o => ref_here ls t l i st Hl Hs f o) as RH.
+  pose proof (C_rc _ _ HI) as HR. pose proof (C_life _ _ HI) as HL. pose proof (C_cons _ _ HI) as HC.
+  pose proof (C_reaped _ _ HI) as HP. pose proof (C_dead _ _ HI) as HD.
+  destruct i; norm_exec Hx.
+  all: unfold ext, dcnt, created in *.
+  all: try (solve [
+            repeat match type of Hx with
+                   | context [if ?x then _ else _] => destruct x eqn:?
+                   | context [match ?x with _ => _ end] => destruct x eqn:?
+                   end; try discriminate;
+            inversion Hx; subst; clear Hx; cbn [app] in *;
+            fin_simple TSv HR HL HC HP HD ls t ]).
+  7: { (* IDcVec *)
+    inversion Hx; subst; clear Hx; cbn [app] in *.
+    constructor; unfold ext, dcnt, created; cbn -[cnt tot].
+    - intros o; tsf TSv o; rewrite (HR o), cnt_nil; lia.
+    - life_same TSv HL ls t.
+    - intros o; tsf TSv o; rewrite (HC o), cnt_nil; lia.
+    - intros o Ho. tsf TSv o. destruct (HP o Ho) as [A [B [C [D F]]]]. rewrite cnt_nil. repeat split; auto; lia.
+    - reflexivity. }
+  2: { (* IAddLock *)
+    destruct (Nat.eqb_spec (cstate g) 2) as [Ec|Ec].
+    { inversion Hx; subst; clear Hx; cbn [app] in *. fin_simple TSv HR HL HC HP HD ls t. }
+    norm_exec Hx. inversion Hx; subst; clear Hx; cbn [app] in *.
+    constructor; unfold ext, dcnt, created; cbn -[cnt tot].
+    - intros x; tsf TSv x; rewrite (HR x), cnt_app, cnt_cons, cnt_nil; lia.
+    - life_same TSv HL ls t.
+    - intros x; tsf TSv x; rewrite cnt_cons, (HC x), cnt_app, cnt_cons, cnt_nil; lia.
+    - intros x Hx. tsf TSv x. destruct (HP x Hx) as [A [B [C [D F]]]]. rewrite cnt_app, cnt_cons, cnt_nil.
+      pose proof (RH arefs x) as R. cbn [arefs] in R. rewrite cnt_cons, cnt_nil in R.
+      repeat split; auto; try lia.
+    - intros Hc. congruence. }
+  5: { (* IDtor *)
+    assert (S1 : InvC (log_d g o) (upd ls t (Loc p ([] ++ st) r'))).
+    { pose proof (fun f x => TS ls t l (IDtor src o) st r' [] p Hl Hs f x) as TS1.
+      constructor; unfold ext, dcnt, created; cbn -[cnt tot].
+      - intros x; tsf TS1 x; rewrite (HR x); lia.
+      - intros x; tsf TS1 x; specialize (HL x); cbn -[cnt tot] in *. rewrite cnt_cons.
+        replace ((if o =? x then 1 else 0) + cnt x (dlog (gh g)) + tot idtor x (upd ls t {| prog := p; stk := st; rv := r' |}))
+          with (cnt x (dlog (gh g)) + tot idtor x ls) by lia. exact HL.
+      - intros x; tsf TS1 x; rewrite (HC x); lia.
+      - reaped_same TS1 HP.
+      - exact HD. }
+    destruct (src <? 2).
+    + destruct (reenter (log_d g o) (dmode g o)) as [g2 push2] eqn:RE. inversion Hx; subst; clear Hx.
+      pose proof (reenter_InvC _ _ t _ _ _ _ p (rv l) S1 (nth_upd_eq _ _ _ _ Hl) RE) as S2.
+      rewrite upd_upd in S2. cbn [stk app] in S2. exact S2.
+    + inversion Hx; subst; clear Hx. exact S1. }
+  4: { (* IClear *)
+    destruct l0 as [|o l'].
+    { inversion Hx; subst; clear Hx; cbn [app] in *. destruct src as [|[|[|src]]]; fin_simple TSv HR HL HC HP HD ls t. }
+    pose proof (RH irefs o) as R1. cbn [irefs] in R1. rewrite cnt_cons, Nat.eqb_refl in R1.
+    pose proof (HR o) as Ro.
+    assert (G : g' = (if src =? SRC_DROP then dec_rc g o else log_rel (dec_rc g o) o)) by (inversion Hx; reflexivity).
+    assert (RC : forall x, rc g' x = if Nat.eqb x o then rc g o - 1 else rc g x).
+    { intros x. rewrite G, Nat.sub_1_r. destruct (src =? SRC_DROP); cbn; unfold fupd; reflexivity. }
+    assert (SAME : vec g' = vec g /\ slots g' = slots g /\ dlog (gh g') = dlog (gh g) /\ addlog (gh g') = addlog (gh g) /\
+                   reaped (gh g') = reaped (gh g) /\ nobj g' = nobj g /\ cstate g' = cstate g /\
+                   rlog (gh g') = (if src =? SRC_DROP then [] else [o]) ++ rlog (gh g)).
+    { rewrite G. destruct (src =? SRC_DROP); cbn; repeat split; reflexivity. }
+    destruct SAME as [E1 [E2 [E3 [E4 [E5 [E6 [E7 E8]]]]]]].
+    assert (PU : push = (if rc g o =? 1 then [IDtor src o] else []) ++ [IClear src l']) by (inversion Hx; reflexivity).
+    clear Hx G. subst push.
+    constructor; unfold ext, dcnt, created; rewrite ?E1, ?E2, ?E3, ?E4, ?E5, ?E6, ?E7, ?E8.
+    - intros x. rewrite RC. pose proof (TSv irefs x) as T1.  rewrite flat_map_app in T1.
+      assert (flat_map irefs (if rc g o =? 1 then [IDtor src o] else []) = []) as Z by (destruct (rc g o =? 1); reflexivity).
+      rewrite Z in T1. cbn [irefs flat_map app] in T1. rewrite app_nil_r, cnt_cons in T1.
+      eqcase o x; [lia|rewrite (HR x); lia].
+    - intros x. rewrite RC. pose proof (TSv idtor x) as T2.  rewrite flat_map_app in T2.
+      cbn [idtor flat_map app] in T2. rewrite app_nil_r, cnt_nil in T2. specialize (HL x). unfold dcnt, created in HL.
+      eqcase o x.
+      + destruct (Nat.eqb_spec (rc g x) 0) as [Z0|Z0]; [lia|]. destruct HL as [HL1 HL2].
+        destruct (Nat.eqb (rc g x) 1) eqn:Z1; rewrite ?Z1 in T2; cbn [flat_map idtor app] in T2;
+          rewrite ?cnt_cons, ?cnt_nil, ?Nat.eqb_refl in T2.
+        * apply Nat.eqb_eq in Z1. rewrite Z1. cbn [Nat.sub Nat.eqb]. rewrite HL1.
+          change (if true then 1 else 0) with 1. cbn [app]. lia.
+        * apply Nat.eqb_neq in Z1. destruct (Nat.eqb_spec (rc g x - 1) 0); [lia|]. cbn [app]. split; [exact HL1|lia].
+      + assert (cnt x (flat_map idtor (if rc g o =? 1 then [IDtor src o] else [])) = 0) as Z.
+        { destruct (rc g o =? 1); cbn [flat_map idtor app]; rewrite ?cnt_cons, ?cnt_nil; [|reflexivity].
+          destruct (Nat.eqb_spec o x); [congruence|reflexivity]. }
+        replace (tot idtor x (upd ls t _)) with (tot idtor x ls) by lia. exact HL.
+    - intros x. pose proof (TSv crefs x) as T3.  rewrite flat_map_app in T3.
+      assert (flat_map crefs (if rc g o =? 1 then [IDtor src o] else []) = []) as Z by (destruct (rc g o =? 1); reflexivity).
+      rewrite Z in T3. cbn [crefs flat_map app] in T3. rewrite (HC x).
+      destruct (src =? SRC_DROP); cbn [app] in *; rewrite ?app_nil_r, ?cnt_cons, ?cnt_nil in *; lia.
+    - intros x Hx. destruct (HP x Hx) as [A [B [C [D F]]]]. rewrite RC.
+      pose proof (TSv arefs x) as T4.  rewrite flat_map_app in T4.
+      assert (flat_map arefs (if rc g o =? 1 then [IDtor src o] else []) = []) as Z by (destruct (rc g o =? 1); reflexivity).
+      rewrite Z in T4. cbn [arefs flat_map app] in T4.
+      repeat split; auto.
+      + destruct (src =? SRC_DROP); cbn [app] in *; rewrite ?app_nil_r, ?cnt_cons, ?cnt_nil in *; lia.
+      + eqcase x o; lia.
+    - exact HD. }
+  3: { (* ICb *)
+    set (g1 := log_cb (set_ncb g (S (ncb g))) o) in *.
+    assert (S1 : forall push1, flat_map irefs push1 = ec -> flat_map idtor push1 = [] -> flat_map crefs push1 = ec ->
+                 flat_map arefs push1 = [] -> InvC g1 (upd ls t (Loc p (push1 ++ st) (rv l)))).
+    { intros push1 Z1 Z2 Z3 Z4.
+      pose proof (fun f x => TS ls t l (ICb o rest ec esz) st (rv l) push1 p Hl Hs f x) as TS1.
+      constructor; unfold ext, dcnt, created; cbn -[cnt tot].
+      - intros x. pose proof (TS1 irefs x) as T. rewrite Z1 in T. cbn [irefs] in T. rewrite (HR x). lia.
+      - intros x. pose proof (TS1 idtor x) as T. rewrite Z2 in T. cbn [idtor] in T. rewrite cnt_nil in T.
+        specialize (HL x). replace (tot idtor x (upd ls t _)) with (tot idtor x ls) by lia. exact HL.
+      - intros x. pose proof (TS1 crefs x) as T. rewrite Z3 in T. cbn [crefs] in T. rewrite (HC x). lia.
+      - intros x Hxr. pose proof (TS1 arefs x) as T. rewrite Z4 in T. cbn [arefs] in T. rewrite cnt_nil in T.
+        destruct (HP x Hxr) as [A [B [C [D F]]]]. repeat split; auto. lia.
+      - exact HD. }
+    destruct (memn (ncb g) (throws (cf g))).
+    + inversion Hx; subst; clear Hx. apply S1; cbn; rewrite ?app_nil_r; reflexivity.
+    + destruct (reenter g1 (cmode g o)) as [g2 push2] eqn:RE. inversion Hx; subst; clear Hx.
+      assert (S1' : InvC g1 (upd ls t (Loc p (cbs_cont rest ec esz ++ st) (rv l)))).
+      { apply S1; destruct rest; cbn; rewrite ?app_nil_r; reflexivity. }
+      pose proof (reenter_InvC _ _ t _ _ _ _ p (rv l) S1' (nth_upd_eq _ _ _ _ Hl) RE) as S2.
+      rewrite upd_upd in S2. cbn [stk] in S2. rewrite app_assoc in S2. exact S2. }
+  2: { (* IDoTry *)
+    cbn [vec rc set_mtx] in Hx.
+    destruct (scan (vec g) (rc g)) as [ec r1] eqn:SC.
+    destruct ec as [|e ec'].
+    { inversion Hx; subst; clear Hx; cbn [app] in *. fin_simple TSv HR HL HC HP HD ls t. }
+    remember (e :: ec') as ec eqn:Hec.
+    destruct (sweep (vec g) ec r1) as [v2 r2] eqn:SW.
+    pose proof (scan_sweep (vec g) (rc g) (fun o => ext g o + tot irefs o ls) ec r1 v2 r2
+                  (fun o => eq_trans (HR o) (eq_sym (Nat.add_assoc _ _ _))) SC SW) as SS.
+    assert (PU : flat_map irefs push = ec /\ flat_map idtor push = [] /\ flat_map crefs push = ec /\ flat_map arefs push = []).
+    { inversion Hx; subst. destruct (hascb (cf g)); cbn; rewrite ?app_nil_r; repeat split; reflexivity. }
+    destruct PU as [P1 [P2 [P3 P4]]].
+    assert (G : g' = log_reaped (set_rc (set_vec (set_mtx g m) v2) r2) ec) by (inversion Hx; reflexivity).
+    clear Hx. subst g'.
+    constructor; unfold ext, dcnt, created in *; cbn -[cnt tot].
+    - intros x. destruct (SS x) as [A [B [C D]]]. pose proof (TSv irefs x) as T. rewrite P1 in T. cbn [irefs] in T.
+      rewrite cnt_nil in T. rewrite A, (HR x). lia.
+    - intros x. destruct (SS x) as [A [B [C D]]]. pose proof (TSv idtor x) as T. rewrite P2 in T. cbn [idtor] in T.
+      rewrite cnt_nil in T. rewrite A. specialize (HL x).
+      replace (tot idtor x (upd ls t _)) with (tot idtor x ls) by lia. exact HL.
+    - intros x. destruct (SS x) as [A [B [C D]]]. pose proof (TSv crefs x) as T. rewrite P3 in T. cbn [crefs] in T.
+      rewrite cnt_nil in T. rewrite (HC x). lia.
+    - intros x Hxr. destruct (SS x) as [A [B [C D]]]. pose proof (TSv arefs x) as T. rewrite P4 in T. cbn [arefs] in T.
+      rewrite cnt_nil in T. rewrite A. apply in_app_or in Hxr. destruct Hxr as [Hin|Hin].
+      + apply cnt_In in Hin. destruct D as [D1 [D2 D3]]; [lia|].
+        pose proof (tot_arefs_le x ls). specialize (HL x). rewrite D1 in HL. cbn [Nat.eqb] in HL.
+        repeat split; try lia. apply HL.
+      + destruct (HP x Hin) as [Q1 [Q2 [Q3 [Q4 Q5]]]]. repeat split; auto; lia.
+    - intros Hc. specialize (HD Hc). rewrite HD in SC. cbn in SC. inversion SC. congruence. }
+  (* IInvoke *)
+  destruct (invoke g o) as [g1 push1] eqn:IV. inversion Hx; subst; clear Hx.
+  unfold invoke in IV.
+  assert (F0 : forall push0, flat_map irefs push0 = [] -> flat_map idtor push0 = [] -> flat_map crefs push0 = [] ->
+               flat_map arefs push0 = [] -> InvC g (upd ls t (Loc p (push0 ++ st) (rv l)))).
+  { intros push0 Z1 Z2 Z3 Z4.
+    pose proof (fun f x => TS ls t l (IInvoke o) st (rv l) push0 p Hl Hs f x) as TS1.
+    constructor; unfold ext, dcnt, created; cbn -[cnt tot].
+    - intros x. pose proof (TS1 irefs x) as T. rewrite Z1 in T. cbn [irefs] in T. rewrite (HR x). lia.
+    - intros x. pose proof (TS1 idtor x) as T. rewrite Z2 in T. cbn [idtor] in T. rewrite cnt_nil in T.
+      specialize (HL x). replace (tot idtor x (upd ls t _)) with (tot idtor x ls) by lia. exact HL.
+    - intros x. pose proof (TS1 crefs x) as T. rewrite Z3 in T. cbn [crefs] in T. rewrite (HC x). lia.
+    - intros x Hxr. pose proof (TS1 arefs x) as T. rewrite Z4 in T. cbn [arefs] in T. rewrite cnt_nil in T.
+      destruct (HP x Hxr) as [A [B [C [D F]]]]. repeat split; auto. lia.
+    - exact HD. }
+  destruct o as [s dm cm|s| |d| | |s]; destruct (negb (cstate g =? 0)) eqn:DEAD;
+    try (inversion IV; subst; apply F0; reflexivity).
+  - (* Add *)
+    destruct (new_obj g dm cm) as [g1 x] eqn:N.
+    pose proof (F0 [ISetRv (zn x); IEndOp true] eq_refl eq_refl eq_refl eq_refl) as S0.
+    destruct (new_obj_InvC _ _ t _ dm cm g1 x p (rv l) S0 (nth_upd_eq _ _ _ _ Hl) N) as [Ex S1].
+    rewrite upd_upd in S1. cbn [stk app] in S1.
+    set (L1 := Loc p (IAddLock x :: ISetRv (zn x) :: IEndOp true :: st) (rv l)) in *.
+    assert (A1 : tot arefs x (upd ls t L1) >= 1).
+    { pose proof (tot_ge arefs x (upd ls t L1) t L1 (nth_upd_eq _ _ _ _ Hl)) as T.
+      change (stk L1) with (IAddLock x :: ISetRv (zn x) :: IEndOp true :: st) in T. cbn [flat_map arefs] in T.
+      rewrite cnt_app, cnt_cons, Nat.eqb_refl in T. lia. }
+    destruct (negb (s =? 0) && match slot_get s (slots g) with Some _ => false | None => true end);
+      inversion IV; subst; clear IV; cbn [app].
+    + apply keep_InvC; assumption.
+    + exact S1.
+  - (* Drop *)
+    destruct (slot_get s (slots g)) as [x|] eqn:SG; inversion IV; subst; clear IV; [|apply F0; reflexivity].
+    pose proof (slot_del_ext _ _ _ SG) as SD. pose proof (slot_get_ext _ _ _ SG) as SE.
+    constructor; unfold ext, dcnt, created in *; cbn -[cnt tot].
+    + intros o; tsf TSv o. specialize (SD o). rewrite (HR o). lia.
+    + life_same TSv HL ls t.
+    + intros o; tsf TSv o. rewrite (HC o). lia.
+    + intros o Ho. tsf TSv o. destruct (HP o Ho) as [A [B [C [D F]]]]. specialize (SD o).
+      assert (o <> x) by (intros ->; lia). eqcase x o; [congruence|]. repeat split; auto; lia.
+    + exact HD.
+  - (* Drop *)
+    destruct (slot_get s (slots g)) as [x|] eqn:SG; inversion IV; subst; clear IV; [|apply F0; reflexivity].
+    pose proof (slot_del_ext _ _ _ SG) as SD. pose proof (slot_get_ext _ _ _ SG) as SE.
+    constructor; unfold ext, dcnt, created in *; cbn -[cnt tot].
+    + intros o; tsf TSv o. specialize (SD o). rewrite (HR o). lia.
+    + life_same TSv HL ls t.
+    + intros o; tsf TSv o. rewrite (HC o). lia.
+    + intros o Ho. tsf TSv o. destruct (HP o Ho) as [A [B [C [D F]]]]. specialize (SD o).
+      assert (o <> x) by (intros ->; lia). eqcase x o; [congruence|]. repeat split; auto; lia.
+    + exact HD.
+  - (* Readd *)
+    destruct (slot_get s (slots g)) as [x|] eqn:SG; inversion IV; subst; clear IV; [|apply F0; reflexivity].
+    pose proof (slot_get_ext _ _ _ SG) as SE.
+    constructor; unfold ext, dcnt, created in *; cbn -[cnt tot].
+    + intros o; tsf TSv o. unfold fupd. rewrite (Nat.eqb_sym o x). eqcase x o; rewrite (HR o); lia.
+    + intros o; tsf TSv o. specialize (HL o). unfold fupd.
+      replace (tot idtor o (upd ls t _)) with (tot idtor o ls) by lia.
+      eqcase o x; [|exact HL]. pose proof (HR x). destruct (Nat.eqb_spec (rc g x) 0); [lia|]. exact HL.
+    + intros o; tsf TSv o. rewrite (HC o). lia.
+    + intros o Ho. tsf TSv o. destruct (HP o Ho) as [A [B [C [D F]]]]. unfold fupd.
+      assert (o <> x) by (intros ->; lia). eqcase o x; [congruence|]. repeat split; auto; lia.
+    + exact HD.
+Qed.
+
+(* ---------- from single instructions to scheduling steps ---------- *)
+Lemma upd_same {A} (ls : list A) t l : nth_error ls t = Some l -> upd ls t l = ls.
+Proof. revert t; induction ls; destruct t; cbn; intros H; try discriminate; [inversion H; reflexivity|rewrite IHls; auto]. Qed.
+
+Section Lift.
+  Variable P : glob -> list loc -> Prop.
+  Hypothesis P_exec : forall g ls t l i st c g' r' push es,
+    P g ls -> nth_error ls t = Some l -> stk l = i :: st ->
+    exec t c g (rv l) i = Some (g', r', push, es) -> P g' (upd ls t (Loc (prog l) (push ++ st) r')).
+  (* starting an operation: the invoke pseudo-instruction is put on the empty stack *)
+  Hypothesis P_invoke : forall g ls t l o p, P g ls -> nth_error ls t = Some l -> stk l = [] -> prog l = o :: p ->
+    P g (upd ls t (Loc p [IInvoke o] (rv l))).
+
+  Lemma P_settle fuel : forall t g r st evs ls p g2 r2 st2 es2,
+    P g ls -> nth_error ls t = Some (Loc p st r) ->
+    settle fuel t g r st evs = (g2, r2, st2, es2) -> P g2 (upd ls t (Loc p st2 r2)).
+  Proof.
+    induction fuel as [|f IH]; intros t g r st evs ls p g2 r2 st2 es2 HP Hl Hs; cbn in Hs.
+    - inversion Hs; subst. rewrite (upd_same _ _ _ Hl). exact HP.
+    - destruct st as [|i st']; [inversion Hs; subst; rewrite (upd_same _ _ _ Hl); exact HP|].
+      destruct (visible g i); [inversion Hs; subst; rewrite (upd_same _ _ _ Hl); exact HP|].
+      destruct (exec t 0 g r i) as [[[[g' r'] push] es]|] eqn:E; [|inversion Hs; subst; rewrite (upd_same _ _ _ Hl); exact HP].
+      pose proof (P_exec g ls t (Loc p (i :: st') r) i st' 0 g' r' push es HP Hl eq_refl E) as H1. cbn [prog] in H1.
+      pose proof (IH t g' r' (push ++ st') (evs ++ es) _ p g2 r2 st2 es2 H1 (nth_upd_eq _ _ _ _ Hl) Hs) as H2.
+      rewrite upd_upd in H2. exact H2.
+  Qed.
+
+  Lemma P_step : forall g ls t c l g' l' es,
+    P g ls -> nth_error ls t = Some l -> tstep t c g l = Some (g', l', es) -> P g' (upd ls t l').
+  Proof.
+    intros g ls t c l g' l' es HP Hl Hs. unfold tstep in Hs.
+    assert (FIRE : forall p i st ls0, P g ls0 -> nth_error ls0 t = Some (Loc p (i :: st) (rv l)) ->
+              forall g2 l2 es2,
+              (if visible g i then
+                 match exec t c g (rv l) i with
+                 | None => None
+                 | Some (g', r', push, es) =>
+                   let '(g2, r2, st2, es2) := settle settle_fuel t g' r' (push ++ st) es in Some (g2, Loc p st2 r2, es2)
+                 end
+               else let '(g2, r2, st2, es2) := settle settle_fuel t g (rv l) (i :: st) [] in Some (g2, Loc p st2 r2, es2))
+              = Some (g2, l2, es2) -> P g2 (upd ls0 t l2)).
+    { intros p i st ls0 HP0 Hl0 g2 l2 es2 H. destruct (visible g i).
+      - destruct (exec t c g (rv l) i) as [[[[g1 r1] push] es1]|] eqn:E; [|discriminate].
+        pose proof (P_exec g ls0 t _ i st c g1 r1 push es1 HP0 Hl0 eq_refl E) as H1. cbn [prog] in H1.
+        destruct (settle settle_fuel t g1 r1 (push ++ st) es1) as [[[g3 r3] st3] es3] eqn:S. inversion H; subst.
+        pose proof (P_settle _ _ _ _ _ _ _ _ _ _ _ _ H1 (nth_upd_eq _ _ _ _ Hl0) S) as H2. rewrite upd_upd in H2. exact H2.
+      - destruct (settle settle_fuel t g (rv l) (i :: st) []) as [[[g3 r3] st3] es3] eqn:S. inversion H; subst.
+        apply (P_settle _ _ _ _ _ _ _ _ _ _ _ _ HP0 Hl0 S). }
+    destruct l as [pr sk r]. cbn [stk prog rv] in *. destruct sk as [|i st].
+    - destruct pr as [|o pr]; [discriminate|].
+      pose proof (P_invoke g ls t _ o pr HP Hl eq_refl eq_refl) as H0. cbn [rv] in H0.
+      pose proof (FIRE pr (IInvoke o) [] _ H0 (nth_upd_eq _ _ _ _ Hl) g' l' es Hs) as H1.
+      rewrite upd_upd in H1. exact H1.
+    - apply (FIRE pr i st ls HP Hl g' l' es Hs).
+  Qed.
+End Lift.
+
+Lemma InvC_invoke g ls t l o p : InvC g ls -> nth_error ls t = Some l -> stk l = [] ->
+  InvC g (upd ls t (Loc p [IInvoke o] (rv l))).
+Proof.
+  intros HI Hl Hs.
+  assert (TP : forall f x, tot f x (upd ls t (Loc p [IInvoke o] (rv l))) = tot f x ls + cnt x (f (IInvoke o))).
+  { intros f x. pose proof (tot_push f x ls t l [IInvoke o] p (rv l) Hl) as E. rewrite Hs in E. cbn [app flat_map] in E.
+    rewrite app_nil_r in E. exact E. }
+  destruct HI as [HR HL HC HP HD]. constructor.
+  - intros x. rewrite TP. cbn [irefs]. rewrite cnt_nil, Nat.add_0_r. apply HR.
+  - intros x. rewrite TP. cbn [idtor]. rewrite cnt_nil, Nat.add_0_r. apply HL.
+  - intros x. rewrite TP. cbn [crefs]. rewrite cnt_nil, Nat.add_0_r. apply HC.
+  - intros x Hx. rewrite TP. cbn [arefs]. rewrite cnt_nil, Nat.add_0_r. apply HP, Hx.
+  - exact HD.
+Qed.
+
+Lemma InvC_step g ls t c l g' l' es :
+  InvC g ls -> nth_error ls t = Some l -> tstep t c g l = Some (g', l', es) -> InvC g' (upd ls t l').
+Proof. apply (P_step InvC); [intros; eapply exec_InvC; eauto|intros; apply InvC_invoke; auto]. Qed.
+
+(* ---------- lock discipline ---------- *)
+Record InvL (g : glob) (ls : list loc) : Prop := {
+  L_wf : forall u, wf (stk_of ls u) = true;
+  L_lock : if locked (cf g) then forall u, mtx g = Some u <-> holds (stk_of ls u) = true else mtx g = None
+}.
+
+Lemma try_acq_spec t c g b g' es : try_acq t c g = Some (b, g', es) ->
+  (locked (cf g) = false /\ b = true /\ g' = g) \/
+  (locked (cf g) = true /\ mtx g = None /\ b = true /\ g' = set_mtx g (Some t)) \/
+  (locked (cf g) = true /\ b = false /\ g' = g /\ exists a, mtx g = Some a).
+Proof.
+  unfold try_acq. destruct (locked (cf g)); [destruct (mtx g) eqn:M; [destruct (Nat.eqb c 2)|]|]; intros H; inversion H; subst; eauto 10.
+Qed.
+Lemma lock_acq_spec t g g' es : lock_acq t g = Some (g', es) ->
+  (locked (cf g) = false /\ g' = g) \/ (locked (cf g) = true /\ mtx g = None /\ g' = set_mtx g (Some t)).
+Proof. unfold lock_acq. destruct (locked (cf g)); [destruct (mtx g) eqn:M|]; intros H; inversion H; subst; auto. Qed.
+Lemma unlock_spec g g' es : unlock g = (g', es) ->
+  (locked (cf g) = false /\ g' = g) \/ (locked (cf g) = true /\ g' = set_mtx g None).
+Proof. unfold unlock. destruct (locked (cf g)); intros H; inversion H; subst; auto. Qed.
+
+(* the shape of the stack after an instruction, in terms of what happened to the mutex *)
+Definition acquired (g g' : glob) (t : nat) := locked (cf g) = true /\ mtx g = None /\ mtx g' = Some t.
+Definition released (g g' : glob) := locked (cf g) = true /\ mtx g' = None.
+
+Lemma InvL_update g ls t l p st' r' g' :
+  InvL g ls -> nth_error ls t = Some l -> cf g' = cf g -> wf st' = true ->
+  ((mtx g' = mtx g /\ holds st' = holds (stk l)) \/
+   (acquired g g' t /\ holds st' = true) \/
+   (released g g' /\ holds (stk l) = true /\ holds st' = false) \/
+   (locked (cf g) = false /\ mtx g' = mtx g)) ->
+  InvL g' (upd ls t (Loc p st' r')).
+Proof.
+  intros [HW HK] Hl Hcf Hwf Hc. constructor.
+  - intros u. rewrite (stk_of_upd _ _ _ _ _ Hl). destruct (Nat.eqb_spec u t); [exact Hwf|apply HW].
+  - rewrite Hcf. destruct (locked (cf g)) eqn:LK.
+    + intros u. rewrite (stk_of_upd _ _ _ _ _ Hl). cbn [stk]. pose proof (HK u) as Ku. pose proof (HK t) as Kt.
+      rewrite (stk_of_at _ _ _ Hl) in Kt.
+      destruct Hc as [[M H]|[[[_ [M0 M1]] H]|[[[_ M1] [H0 H]]|[X _]]]]; [| | |congruence].
+      * rewrite M. destruct (Nat.eqb_spec u t) as [->|Hne]; [rewrite H; exact Kt|exact Ku].
+      * rewrite M1. rewrite M0 in Ku. destruct (Nat.eqb_spec u t) as [->|Hne].
+        { rewrite H. split; auto. }
+        { split; [intros E; inversion E; congruence|]. intros E. apply (proj2 Ku) in E. discriminate. }
+      * rewrite M1. apply (proj2 Kt) in H0. rewrite H0 in Ku. destruct (Nat.eqb_spec u t) as [->|Hne].
+        { rewrite H. split; discriminate. }
+        { split; [discriminate|]. intros E. apply (proj2 Ku) in E. inversion E. congruence. }
+    + destruct Hc as [[M _]|[[[X _] _]|[[[X _] _]|[_ M]]]]; [rewrite M; exact HK|congruence|congruence|rewrite M; exact HK].
+Qed.
+
+Lemma reenter_quiet g m g' push : reenter g m = (g', push) -> quiet push = true /\ cf g' = cf g /\ mtx g' = mtx g.
+Proof.
+  unfold reenter. destruct (cstate g); [|intros H; inversion H; auto].
+  destruct m as [|[|[|[|[|m]]]]]; intros H; inversion H; subst; auto.
+Qed.
+Lemma cbs_cont_quiet rest ec esz : quiet (cbs_cont rest ec esz) = true.
+Proof. destruct rest; reflexivity. Qed.
+Lemma invoke_quiet g o g' push : invoke g o = (g', push) -> quiet push = true /\ cf g' = cf g /\ mtx g' = mtx g.
+Proof.
+  unfold invoke. destruct o; destruct (negb (cstate g =? 0)); try (intros H; inversion H; subst; auto; fail).
+  - destruct (negb (slot =? 0) && match slot_get slot (slots g) with Some _ => false | None => true end);
+      intros H; inversion H; subst; auto.
+  - destruct (slot_get slot (slots g)); intros H; inversion H; subst; auto.
+  - destruct (slot_get slot (slots g)); intros H; inversion H; subst; auto.
+  - destruct (slot_get slot (slots g)); intros H; inversion H; subst; auto.
+Qed.
+
+Lemma quiet_cons i st : quiet (i :: st) = negb (hold_i i) && quiet st.
+Proof. reflexivity. Qed.
+Lemma quiet_nil : quiet [] = true.
+Proof. reflexivity. Qed.
+Ltac normW W := cbn [wf app] in W; rewrite ?quiet_cons in W; cbn [hold_i negb andb] in W.
+Ltac shape_wf W := cbn [wf app]; rewrite ?quiet_cons; cbn [hold_i negb andb]; first [exact W | apply quiet_wf; exact W].
+Ltac shape_disj W :=
+  first [ left; split; [reflexivity|cbn [holds app]; rewrite ?(quiet_not_holds _ W); reflexivity]
+        | right; left; split; [repeat split; assumption|reflexivity]
+        | right; right; left; split; [split; [assumption|reflexivity]|split; [reflexivity|cbn [app]; apply quiet_not_holds; exact W]]
+        | right; right; right; split; [assumption|reflexivity] ].
+
+Lemma exec_shape g t c r i st g' r' push es :
+  wf (i :: st) = true -> exec t c g r i = Some (g', r', push, es) ->
+  cf g' = cf g /\ wf (push ++ st) = true /\
+  ((mtx g' = mtx g /\ holds (push ++ st) = holds (i :: st)) \/
+   (acquired g g' t /\ holds (push ++ st) = true) \/
+   (released g g' /\ holds (i :: st) = true /\ holds (push ++ st) = false) \/
+   (locked (cf g) = false /\ mtx g' = mtx g)).
+Proof.
+  intros W Hx. destruct i; cbn [exec] in Hx.
+  all: repeat match type of Hx with
+       | context [try_acq ?t ?c ?g] =>
+         let TA := fresh "TA" in destruct (try_acq t c g) as [[[?b ?g1] ?es1]|] eqn:TA; [|discriminate Hx];
+         destruct (try_acq_spec _ _ _ _ _ _ TA) as [[? [? ?]]|[[? [? [? ?]]]|[? [? [? [? ?]]]]]]; subst
+       | context [lock_acq ?t ?g] =>
+         let LA := fresh "LA" in destruct (lock_acq t g) as [[?g1 ?es1]|] eqn:LA; [|discriminate Hx];
+         destruct (lock_acq_spec _ _ _ _ LA) as [[? ?]|[? [? ?]]]; subst
+       | context [unlock ?g] =>
+         let UA := fresh "UA" in destruct (unlock g) as [?g1 ?es1] eqn:UA;
+         destruct (unlock_spec _ _ _ UA) as [[? ?]|[? ?]]; subst
+       end.
+  all: try (solve [
+    repeat match type of Hx with
+           | context [if ?x then _ else _] => destruct x eqn:?
+           | context [match ?x with _ => _ end] => destruct x eqn:?
+           end; try discriminate;
+    inversion Hx; subst; clear Hx;
+    normW W;
+    (split; [reflexivity|split; [shape_wf W|shape_disj W]]) ]).
+  - (* IInvoke *)
+    destruct (invoke g o) as [g1 push1] eqn:IV. inversion Hx; subst; clear Hx.
+    destruct (invoke_quiet _ _ _ _ IV) as [Q [C M]]. normW W.
+    split; [exact C|]. split; [apply quiet_wf; rewrite quiet_app, Q, W; reflexivity|].
+    left. split; [exact M|]. cbn [holds]. apply quiet_not_holds. rewrite quiet_app, Q, W. reflexivity.
+  - (* ISetRvSize *)
+    inversion Hx; subst; clear Hx. cbn [app]. split; [reflexivity|].
+    destruct st as [|j st]; [discriminate W|]. destruct j; try discriminate W.
+    cbn [wf] in *. split; [exact W|]. left. split; reflexivity.
+  - (* IAddLock *)
+    destruct (cstate g =? 2).
+    + inversion Hx; subst; clear Hx. normW W.
+      split; [reflexivity|split; [shape_wf W|shape_disj W]].
+    + destruct (lock_acq t g) as [[g1 es1]|] eqn:LA; [|discriminate Hx].
+      destruct (lock_acq_spec _ _ _ _ LA) as [[? ?]|[? [? ?]]]; subst; inversion Hx; subst; clear Hx;
+        normW W;
+        (split; [reflexivity|split; [shape_wf W|shape_disj W]]).
+  - (* ICb *)
+    normW W.
+    destruct (memn (ncb g) (throws (cf g))).
+    + inversion Hx; subst; clear Hx. split; [reflexivity|split; [shape_wf W|shape_disj W]].
+    + destruct (reenter (log_cb (set_ncb g (S (ncb g))) o) (cmode g o)) as [g2 push2] eqn:RE.
+      inversion Hx; subst; clear Hx. destruct (reenter_quiet _ _ _ _ RE) as [Q [C M]].
+      assert (QQ : quiet ((push2 ++ cbs_cont rest ec esz) ++ st) = true)
+        by (rewrite !quiet_app, Q, cbs_cont_quiet, W; reflexivity).
+      split; [exact C|]. split; [apply quiet_wf; exact QQ|]. left. split; [exact M|].
+      rewrite (quiet_not_holds _ QQ). reflexivity.
+  - (* IDtor *)
+    normW W.
+    destruct (src <? 2).
+    + destruct (reenter (log_d g o) (dmode g o)) as [g2 push2] eqn:RE.
+      inversion Hx; subst; clear Hx. destruct (reenter_quiet _ _ _ _ RE) as [Q [C M]].
+      assert (QQ : quiet (push ++ st) = true) by (rewrite !quiet_app, Q, W; reflexivity).
+      split; [exact C|]. split; [apply quiet_wf; exact QQ|]. left. split; [exact M|].
+      rewrite (quiet_not_holds _ QQ). reflexivity.
+    + inversion Hx; subst; clear Hx. split; [reflexivity|split; [shape_wf W|shape_disj W]].
+Qed.
+
+Lemma exec_InvL g ls t l i st c g' r' push es p :
+  InvL g ls -> nth_error ls t = Some l -> stk l = i :: st ->
+  exec t c g (rv l) i = Some (g', r', push, es) -> InvL g' (upd ls t (Loc p (push ++ st) r')).
+Proof.
+  intros HI Hl Hs Hx. pose proof (L_wf _ _ HI t) as W. rewrite (stk_of_at _ _ _ Hl), Hs in W.
+  destruct (exec_shape _ _ _ _ _ _ _ _ _ _ W Hx) as [C [W' D]].
+  apply (InvL_update g ls t l p _ r' g' HI Hl C W'). rewrite Hs. exact D.
+Qed.
+Lemma InvL_invoke g ls t l o p : InvL g ls -> nth_error ls t = Some l -> stk l = [] ->
+  InvL g (upd ls t (Loc p [IInvoke o] (rv l))).
+Proof.
+  intros HI Hl Hs. apply (InvL_update g ls t l p [IInvoke o] (rv l) g HI Hl eq_refl); [reflexivity|].
+  left. rewrite Hs. split; reflexivity.
+Qed.
+Lemma InvL_step g ls t c l g' l' es :
+  InvL g ls -> nth_error ls t = Some l -> tstep t c g l = Some (g', l', es) -> InvL g' (upd ls t l').
+Proof. apply (P_step InvL); [intros; eapply exec_InvL; eauto|intros; apply InvL_invoke; auto]. Qed.
+
+(* ---------- callbacks ---------- *)
+Definition cb_ok (g : glob) (i : instr) : Prop :=
+  match i with
+  | ICb x rest ec _ => hascb (cf g) = true /\ NoDup (x :: rest) /\ incl (x :: rest) ec /\
+        (forall o, In o (x :: rest) -> cbc g o = 0) /\ (forall o, In o ec -> ~ In o (x :: rest) -> cbc g o = 1) /\
+        (forall o, In o ec -> In o (reaped (gh g)))
+  | IClear src l => src = SRC_CLEAR -> hascb (cf g) = true -> forall o, In o l -> cbc g o = 1
+  | IDtor src o => src = SRC_CLEAR -> hascb (cf g) = true -> cbc g o = 1
+  | _ => True
+  end.
+Record InvB (g : glob) (ls : list loc) : Prop := {
+  B_ok : forall u i, In i (stk_of ls u) -> cb_ok g i;
+  B_one : forall o, cbc g o <= 1;
+  B_nocb : hascb (cf g) = false -> cblog (gh g) = [];
+  B_reap : forall o, cbc g o >= 1 -> In o (reaped (gh g))
+}.
+
+Lemma cb_ok_mono g g' i : cf g' = cf g -> cblog (gh g') = cblog (gh g) -> incl (reaped (gh g)) (reaped (gh g')) ->
+  cb_ok g i -> cb_ok g' i.
+Proof.
+  intros C B R. destruct i; cbn [cb_ok]; unfold cbc; rewrite ?C, ?B; auto.
+  intros [H1 [H2 [H3 [H4 [H5 H6]]]]]. repeat split; auto.
+Qed.
+
+Definition is_cb (i : instr) : bool := match i with ICb _ _ _ _ => true | _ => false end.
+
+Lemma reenter_ghost g m g' push : reenter g m = (g', push) ->
+  cf g' = cf g /\ gh g' = gh g /\ (forall i, In i push -> forall g0, cb_ok g0 i).
+Proof.
+  unfold reenter. destruct (cstate g); [|intros H; inversion H; subst; repeat split; auto; intros i []].
+  destruct m as [|[|[|[|[|m]]]]]; intros H; inversion H; subst; repeat split; auto; intros i Hi g0;
+    repeat (destruct Hi as [<-|Hi]; [exact I|]); destruct Hi.
+Qed.
+Lemma invoke_ghost g o g' push : invoke g o = (g', push) ->
+  cf g' = cf g /\ gh g' = gh g /\ (forall i, In i push -> forall g0, cb_ok g0 i).
+Proof.
+  unfold invoke, new_obj.
+  assert (T : forall i l, In i l -> (forall j, In j l -> forall g0, cb_ok g0 j) -> forall g0, cb_ok g0 i) by auto.
+  destruct o; destruct (negb (cstate g =? 0));
+    repeat match goal with
+           | |- context [if ?x then _ else _] => destruct x
+           | |- context [match ?x with _ => _ end] => destruct x
+           end;
+    intros H; inversion H; subst; repeat split; auto; intros i Hi gx;
+    repeat (destruct Hi as [<-|Hi]; [cbn; try exact I; try (intros; discriminate)|]); try destruct Hi.
+Qed.
+
+Lemma InvB_frame g ls t l i st p push r' g' :
+  InvB g ls -> nth_error ls t = Some l -> stk l = i :: st ->
+  cf g' = cf g -> cblog (gh g') = cblog (gh g) -> incl (reaped (gh g)) (reaped (gh g')) ->
+  (forall j, In j push -> cb_ok g' j) ->
+  InvB g' (upd ls t (Loc p (push ++ st) r')).
+Proof.
+  intros [HO H1 HN HR] Hl Hs C B R PO. constructor.
+  - intros u j. rewrite (stk_of_upd _ _ _ _ _ Hl). cbn [stk]. destruct (Nat.eqb_spec u t) as [->|Hne].
+    + intros Hj. apply in_app_or in Hj. destruct Hj as [Hj|Hj]; [apply PO, Hj|].
+      apply (cb_ok_mono g g' j C B R). apply (HO t). rewrite (stk_of_at _ _ _ Hl), Hs. right. exact Hj.
+    + intros Hj. apply (cb_ok_mono g g' j C B R). apply (HO u), Hj.
+  - intros o. unfold cbc. rewrite B. apply H1.
+  - rewrite C, B. exact HN.
+  - intros o. unfold cbc. rewrite B. intros H. apply R, HR, H.
+Qed.
+
+Lemma cnt_flat_in f o (j : instr) s : In j s -> cnt o (f j) <= cnt o (flat_map f s).
+Proof.
+  induction s as [|h s IH]; [intros []|]. intros [->|H]; cbn [flat_map]; rewrite cnt_app; [lia|]. specialize (IH H). lia.
+Qed.
+
+Lemma cb_ok_bump g g' o j : cf g' = cf g -> cblog (gh g') = o :: cblog (gh g) -> reaped (gh g') = reaped (gh g) ->
+  cnt o (irefs j) = 0 -> (forall s y, j = IDtor s y -> y <> o) -> cb_ok g j -> cb_ok g' j.
+Proof.
+  intros C B R N D.
+  assert (CB : forall y, y <> o -> cbc g' y = cbc g y).
+  { intros y Hy. unfold cbc. rewrite B, cnt_cons. destruct (Nat.eqb_spec o y); [congruence|reflexivity]. }
+  destruct j; cbn [cb_ok irefs] in *; auto; rewrite ?C, ?R.
+  - intros [H1 [H2 [H3 [H4 [H5 H6]]]]]. apply cnt_notin in N.
+    assert (forall y, In y ec -> y <> o) as NE by (intros y Hy ->; contradiction).
+    repeat split; auto.
+    + intros y Hy. rewrite CB; auto.
+    + intros y Hy Hn. rewrite CB; auto.
+  - intros H E1 E2 y Hy. apply cnt_notin in N. rewrite CB; [apply H; auto|intros ->; contradiction].
+  - intros H E1 E2. rewrite CB; [apply H; auto|]. apply (D src o0 eq_refl).
+Qed.
+
+Lemma InvB_frame_cb g ls t l o rest ec esz st p push r' g' :
+  InvC g ls -> InvB g ls -> nth_error ls t = Some l -> stk l = ICb o rest ec esz :: st ->
+  cf g' = cf g -> cblog (gh g') = o :: cblog (gh g) -> reaped (gh g') = reaped (gh g) ->
+  (forall j, In j push -> cb_ok g' j) ->
+  InvB g' (upd ls t (Loc p (push ++ st) r')).
+Proof.
+  intros HC [HO H1 HN HR] Hl Hs C B R PO.
+  assert (OKI : cb_ok g (ICb o rest ec esz)). { apply (HO t). rewrite (stk_of_at _ _ _ Hl), Hs. left. reflexivity. }
+  destruct OKI as [K1 [K2 [K3 [K4 [K5 K6]]]]].
+  assert (In o ec) as Oec by (apply K3; left; reflexivity).
+  destruct (C_reaped _ _ HC o (K6 o Oec)) as [_ [_ [_ [RC1 _]]]].
+  pose proof (C_rc _ _ HC o) as RCo. apply cnt_In in Oec.
+  pose proof (tot_ge irefs o ls t l Hl) as Tt. rewrite Hs in Tt. cbn [flat_map irefs] in Tt. rewrite cnt_app in Tt.
+  assert (OLD : forall u j, In j (stk_of ls u) -> (u <> t \/ In j st) -> cb_ok g' j).
+  { intros u j Hj Hw. apply (cb_ok_bump g g' o j C B R); [| |apply (HO u), Hj].
+    - destruct Hw as [Hne|Hin].
+      + unfold stk_of in Hj. destruct (nth_error ls u) as [lu|] eqn:Hu; [|destruct Hj].
+        pose proof (tot_ge2 irefs o ls t u l lu (not_eq_sym Hne) Hl Hu) as T2. rewrite Hs in T2.
+        cbn [flat_map irefs] in T2. rewrite cnt_app in T2.
+        pose proof (cnt_flat_in irefs o j _ Hj). lia.
+      + pose proof (cnt_flat_in irefs o j _ Hin). lia.
+    - intros s y -> ->. unfold stk_of in Hj. destruct (nth_error ls u) as [lu|] eqn:Hu; [|destruct Hj].
+      pose proof (tot_ge idtor o ls u lu Hu) as T3. pose proof (cnt_flat_in idtor o _ _ Hj) as T4.
+      cbn [idtor] in T4. rewrite cnt_cons, Nat.eqb_refl in T4.
+      pose proof (C_life _ _ HC o) as L. destruct (Nat.eqb_spec (rc g o) 0); [lia|]. destruct L. lia. }
+  constructor.
+  - intros u j. rewrite (stk_of_upd _ _ _ _ _ Hl). cbn [stk]. destruct (Nat.eqb_spec u t) as [->|Hne].
+    + intros Hj. apply in_app_or in Hj. destruct Hj as [Hj|Hj]; [apply PO, Hj|].
+      apply (OLD t j); [rewrite (stk_of_at _ _ _ Hl), Hs; right; exact Hj|right; exact Hj].
+    + intros Hj. apply (OLD u j Hj). left. exact Hne.
+  - intros y. unfold cbc. rewrite B, cnt_cons. destruct (Nat.eqb_spec o y) as [<-|Hne]; [|apply H1].
+    pose proof (K4 o (or_introl eq_refl)) as Z. unfold cbc in Z. lia.
+  - rewrite C. intros E. congruence.
+  - intros y. unfold cbc. rewrite B, R, cnt_cons. destruct (Nat.eqb_spec o y) as [<-|Hne]; [intros _; apply K6; apply cnt_In; exact Oec|apply HR].
+Qed.
+
+Lemma exec_InvB g ls t l i st c g' r' push es p :
+  InvC g ls -> InvB g ls -> nth_error ls t = Some l -> stk l = i :: st ->
+  exec t c g (rv l) i = Some (g', r', push, es) -> InvB g' (upd ls t (Loc p (push ++ st) r')).
+Proof.
+  intros HC HB Hl Hs Hx.
+  assert (OKI : cb_ok g i). { apply (B_ok _ _ HB t). rewrite (stk_of_at _ _ _ Hl), Hs. left. reflexivity. }
+  assert (TRIV : forall push0 : list instr, (forall j, In j push0 -> forall g0, cb_ok g0 j) -> forall j, In j push0 -> cb_ok g' j) by auto.
+  destruct i; norm_exec Hx.
+  all: try (solve [
+    repeat match type of Hx with
+           | context [if ?x then _ else _] => destruct x eqn:?
+           | context [match ?x with _ => _ end] => destruct x eqn:?
+           end; try discriminate;
+    inversion Hx; subst; clear Hx;
+    apply (InvB_frame _ ls t l _ st p _ _ _ HB Hl Hs); try reflexivity; try apply incl_refl;
+    intros j Hj; cbn [app] in Hj;
+    repeat (destruct Hj as [<-|Hj]; [cbn; try exact I; try (intros; discriminate)|]); try destruct Hj ]).
+  - (* IInvoke *)
+    destruct (invoke g o) as [g1 push1] eqn:IV. inversion Hx; subst; clear Hx.
+    destruct (invoke_ghost _ _ _ _ IV) as [C [G PO]].
+    apply (InvB_frame _ ls t l _ st p _ _ _ HB Hl Hs); rewrite ?G; auto using incl_refl.
+  - (* IAddLock *)
+    destruct (cstate g =? 2).
+    + inversion Hx; subst; clear Hx.
+      apply (InvB_frame _ ls t l _ st p _ _ _ HB Hl Hs); try reflexivity; try apply incl_refl.
+      intros j [<-|[]]. cbn. unfold SRC_DROP, SRC_CLEAR. intros; discriminate.
+    + norm_exec Hx. inversion Hx; subst; clear Hx.
+      apply (InvB_frame _ ls t l _ st p _ _ _ HB Hl Hs); try reflexivity; try apply incl_refl.
+      intros j [<-|[]]. exact I.
+  - (* IDoTry *)
+    cbn [vec rc set_mtx] in Hx.
+    destruct (scan (vec g) (rc g)) as [ec r1] eqn:SC.
+    destruct ec as [|e ec'].
+    { inversion Hx; subst; clear Hx.
+      apply (InvB_frame _ ls t l _ st p _ _ _ HB Hl Hs); try reflexivity; try apply incl_refl.
+      intros j [<-|[]]. exact I. }
+    remember (e :: ec') as ec eqn:Hec.
+    destruct (sweep (vec g) ec r1) as [v2 r2] eqn:SW.
+    pose proof (scan_sweep (vec g) (rc g) (fun o => ext g o + tot irefs o ls) ec r1 v2 r2
+                  (fun o => eq_trans (C_rc _ _ HC o) (eq_sym (Nat.add_assoc _ _ _))) SC SW) as SS.
+    inversion Hx; subst g' r' push es; clear Hx.
+    apply (InvB_frame _ ls t l _ st p _ _ _ HB Hl Hs); try reflexivity.
+    { cbn. apply incl_appr, incl_refl. }
+    intros j [<-|Hj]; [exact I|].
+    destruct (hascb (cf g)) eqn:CB.
+    + rewrite Hec in Hj. cbn [cbs_cont] in Hj. destruct Hj as [<-|[]]. rewrite <- Hec. cbn [cb_ok].
+      refine (conj CB (conj _ (conj _ (conj _ (conj _ _))))).
+      * rewrite <- Hec. apply NoDup_cnt. intros y. apply (SS y).
+      * rewrite <- Hec. apply incl_refl.
+      * rewrite <- Hec. intros y Hy. apply cnt_In in Hy. destruct (SS y) as [A [B [C D]]].
+        unfold cbc. cbn. fold (cbc g y). pose proof (B_one _ _ HB y) as O1.
+        destruct (cbc g y) as [|k] eqn:K; [reflexivity|exfalso].
+        assert (In y (reaped (gh g))) as R by (apply (B_reap _ _ HB); lia).
+        destruct (C_reaped _ _ HC y R) as [V _]. lia.
+      * rewrite <- Hec. intros y Hy N. contradiction.
+      * intros y Hy. cbn. apply in_or_app. left. exact Hy.
+    + destruct Hj as [<-|[<-|[]]]; cbn [cb_ok]; [|exact I]. cbn. rewrite CB. intros; discriminate.
+  - (* ICb *)
+    destruct OKI as [K1 [K2 [K3 [K4 [K5 K6]]]]].
+    set (g1 := log_cb (set_ncb g (S (ncb g))) o) in *.
+    assert (CB1 : forall y, cbc g1 y = (if o =? y then 1 else 0) + cbc g y).
+    { intros y. unfold cbc, g1. cbn. apply cnt_cons. }
+    assert (CONT : forall g2, cf g2 = cf g -> gh g2 = gh g1 -> forall j, In j (cbs_cont rest ec esz) -> cb_ok g2 j).
+    { intros g2 C2 G2 j Hj.
+      assert (CB2 : forall y, cbc g2 y = (if o =? y then 1 else 0) + cbc g y) by (intros y; unfold cbc; rewrite G2; apply CB1).
+      inversion K2 as [|? ? K2a K2b]; subst.
+      destruct rest as [|x' rest'].
+      - destruct Hj as [<-|[<-|[]]]; [|exact I]. cbn [cb_ok]. intros _ _ y Hy. rewrite CB2.
+        destruct (Nat.eqb_spec o y) as [<-|Hne]; [rewrite (K4 o (or_introl eq_refl)); reflexivity|].
+        rewrite K5; auto. intros [E|[]]. congruence.
+      - destruct Hj as [<-|[]]. cbn [cb_ok]. rewrite C2, G2.
+        refine (conj K1 (conj K2b (conj _ (conj _ (conj _ K6))))).
+        + intros y Hy. apply K3. right. exact Hy.
+        + intros y Hy. rewrite CB2. destruct (Nat.eqb_spec o y) as [<-|Hne]; [contradiction|]. apply K4. right. exact Hy.
+        + intros y Hy Hn. rewrite CB2. destruct (Nat.eqb_spec o y) as [<-|Hne]; [rewrite (K4 o (or_introl eq_refl)); reflexivity|].
+          rewrite K5; auto. intros [E|E]; [congruence|contradiction]. }
+    destruct (memn (ncb g) (throws (cf g))).
+    + inversion Hx; subst g' r' push es; clear Hx.
+      apply (InvB_frame_cb g ls t l o rest ec esz st p _ _ g1 HC HB Hl Hs); try reflexivity.
+      intros j [<-|[<-|[]]]; [|exact I]. cbn. unfold SRC_UNWIND, SRC_CLEAR. intros; discriminate.
+    + destruct (reenter g1 (cmode g o)) as [g2 push2] eqn:RE. destruct (reenter_ghost _ _ _ _ RE) as [A [B C']].
+      inversion Hx; subst g' r' push es; clear Hx.
+      apply (InvB_frame_cb g ls t l o rest ec esz st p _ _ g2 HC HB Hl Hs); rewrite ?B; try reflexivity; [exact A|].
+      intros j Hj. apply in_app_or in Hj. destruct Hj as [Hj|Hj]; [apply C', Hj|]. apply (CONT g2 A B j Hj).
+  - (* IClear *)
+    destruct l0 as [|o l'].
+    { inversion Hx; subst; clear Hx.
+      apply (InvB_frame _ ls t l _ st p _ _ _ HB Hl Hs); try reflexivity; try apply incl_refl. intros j []. }
+    inversion Hx; subst; clear Hx.
+    apply (InvB_frame _ ls t l _ st p _ _ _ HB Hl Hs); try (destruct (src =? SRC_DROP); reflexivity).
+    { destruct (src =? SRC_DROP); apply incl_refl. }
+    assert (CB : cbc (if src =? SRC_DROP then dec_rc g o else log_rel (dec_rc g o) o) = cbc g)
+      by (destruct (src =? SRC_DROP); reflexivity).
+    assert (CF : cf (if src =? SRC_DROP then dec_rc g o else log_rel (dec_rc g o) o) = cf g)
+      by (destruct (src =? SRC_DROP); reflexivity).
+    cbn [cb_ok] in OKI.
+    intros j Hj. apply in_app_or in Hj. destruct Hj as [Hj|[<-|[]]].
+    + destruct (rc g o =? 1); [|destruct Hj]. destruct Hj as [<-|[]]. cbn [cb_ok]. rewrite CB, CF.
+      intros E1 E2. apply (OKI E1 E2). left. reflexivity.
+    + cbn [cb_ok]. rewrite CB, CF. intros E1 E2 y Hy. apply (OKI E1 E2). right. exact Hy.
+  - (* IDtor *)
+    assert (forall g2 push2, (if src <? 2 then reenter (log_d g o) (dmode g o) else (log_d g o, [])) = (g2, push2) ->
+            cf g2 = cf g /\ gh g2 = gh (log_d g o) /\ (forall i, In i push2 -> forall g0, cb_ok g0 i)) as RG.
+    { intros g2 push2. destruct (src <? 2).
+      - intros RE. destruct (reenter_ghost _ _ _ _ RE) as [A [B C']]. repeat split; auto.
+      - intros H; inversion H; subst. repeat split; auto. intros i []. }
+    destruct (if src <? 2 then reenter (log_d g o) (dmode g o) else (log_d g o, [])) as [g2 push2] eqn:RE.
+    destruct (RG _ _ eq_refl) as [A [B C']]. inversion Hx; subst; clear Hx.
+    apply (InvB_frame _ ls t l _ st p _ _ _ HB Hl Hs); rewrite ?B; try reflexivity; auto using incl_refl.
+Qed.
+
+Lemma InvB_invoke g ls t l o p : InvB g ls -> nth_error ls t = Some l -> stk l = [] ->
+  InvB g (upd ls t (Loc p [IInvoke o] (rv l))).
+Proof.
+  intros [HO H1 HN HR] Hl Hs. constructor; auto.
+  intros u j. rewrite (stk_of_upd _ _ _ _ _ Hl). cbn [stk]. destruct (Nat.eqb_spec u t) as [->|Hne]; [|apply HO].
+  intros [<-|[]]. exact I.
+Qed.
+
+(* ---------- the invariant ---------- *)
+Definition Inv (g : glob) (ls : list loc) : Prop := InvC g ls /\ InvL g ls /\ InvB g ls.
+
+Lemma Inv_step : forall g ls t c l g' l' es,
+  Inv g ls -> nth_error ls t = Some l -> tstep t c g l = Some (g', l', es) -> Inv g' (upd ls t l').
+Proof.
+  apply (P_step Inv).
+  - intros g ls t l i st c g' r' push es [HC [HL HB]] Hl Hs Hx. split; [|split].
+    + eapply exec_InvC; eauto.
+    + eapply exec_InvL; eauto.
+    + eapply exec_InvB; eauto.
+  - intros g ls t l o p [HC [HL HB]] Hl Hs _. split; [|split].
+    + apply InvC_invoke; auto.
+    + apply InvL_invoke; auto.
+    + apply InvB_invoke; auto.
+Qed.
+
+Lemma tot_init f o progs : tot f o (map (fun p => Loc p [] 0%Z) progs) = 0.
+Proof. unfold tot. induction progs as [|p r IH]; cbn [map]; [reflexivity|]. rewrite list_sum_cons, IH. reflexivity. Qed.
+Lemma stk_of_init progs u : stk_of (map (fun p => Loc p [] 0%Z) progs) u = [].
+Proof. unfold stk_of. rewrite nth_error_map. destruct (nth_error progs u); reflexivity. Qed.
+
+Lemma Inv_init c progs : Inv (gl (init c progs)) (thr (init c progs)).
+Proof.
+  unfold init; cbn [gl thr]. split; [|split]; constructor; cbn -[cnt tot]; unfold ext, dcnt, cbc, created; cbn -[cnt tot];
+    rewrite ?tot_init, ?cnt_nil; auto; try (intros o []; fail); try (intros; rewrite ?tot_init, ?cnt_nil; lia).
+  - intros o. rewrite tot_init, cnt_nil. destruct o as [|o]; reflexivity.
+  - intros u. rewrite stk_of_init. reflexivity.
+  - destruct (locked c); [|reflexivity]. intros u. rewrite stk_of_init. split; discriminate.
+  - intros u i. rewrite stk_of_init. intros [].
+  - intros o. rewrite cnt_nil. lia.
+Qed.
+
+(* ---------- reachable states ---------- *)
+Definition R (c : config) (progs : list (list op)) (s : sysD) : Prop := reachable glob loc tstep (init c progs) s.
+Lemma R_inv c progs s : R c progs s -> Inv (gl s) (thr s).
+Proof. intros H. eapply reachable_inv; [apply Inv_step|apply Inv_init|exact H]. Qed.
+
+(* ---------- C16: the headline facts ---------- *)
+Definition head_is (s : sysD) (t : nat) (i : instr) : Prop :=
+  exists l st, nth_error (thr s) t = Some l /\ stk l = i :: st.
+
+Lemma head_tot f s t i o : head_is s t i -> cnt o (f i) <= tot f o (thr s).
+Proof. intros [l [st [Hl Hs]]]. apply (ref_here (thr s) t l i st Hl Hs). Qed.
+
+Lemma destroyed_once c progs s o : R c progs s -> dcnt (gl s) o <= 1.
+Proof.
+  intros HR. destruct (R_inv _ _ _ HR) as [HC _]. pose proof (C_life _ _ HC o) as L.
+  destruct (rc (gl s) o =? 0); [destruct (created (gl s) o)|]; lia.
+Qed.
+
+Lemma dtor_not_while_owned c progs s t src o : R c progs s -> head_is s t (IDtor src o) ->
+  rc (gl s) o = 0 /\ ext (gl s) o = 0 /\ cnt o (vec (gl s)) = 0 /\ tot irefs o (thr s) = 0 /\
+  dcnt (gl s) o = 0 /\ tot idtor o (thr s) = 1.
+Proof.
+  intros HR Hh. destruct (R_inv _ _ _ HR) as [HC _]. pose proof (C_life _ _ HC o) as L. pose proof (C_rc _ _ HC o) as RC.
+  pose proof (head_tot idtor s t _ o Hh) as T. cbn [idtor] in T. rewrite cnt_cons, Nat.eqb_refl in T.
+  destruct (Nat.eqb_spec (rc (gl s) o) 0) as [E|E]; [|lia]. destruct (created (gl s) o); lia.
+Qed.
+
+Lemma owned_not_destroyed c progs s o : R c progs s -> rc (gl s) o >= 1 -> dcnt (gl s) o = 0 /\ tot idtor o (thr s) = 0.
+Proof.
+  intros HR Hr. destruct (R_inv _ _ _ HR) as [HC _]. pose proof (C_life _ _ HC o) as L.
+  destruct (Nat.eqb_spec (rc (gl s) o) 0); lia.
+Qed.
+Lemma client_owned_not_destroyed c progs s o : R c progs s -> ext (gl s) o >= 1 -> dcnt (gl s) o = 0 /\ tot idtor o (thr s) = 0.
+Proof.
+  intros HR He. apply (owned_not_destroyed c progs s o HR). destruct (R_inv _ _ _ HR) as [HC _]. rewrite (C_rc _ _ HC o). lia.
+Qed.
+
+Lemma destroyed_at_the_latest c progs s o : R c progs s -> cstate (gl s) = 2 -> created (gl s) o = true ->
+  ext (gl s) o = 0 -> tot irefs o (thr s) = 0 -> dcnt (gl s) o + tot idtor o (thr s) = 1.
+Proof.
+  intros HR Hc Hk He Ht. destruct (R_inv _ _ _ HR) as [HC _]. pose proof (C_life _ _ HC o) as L. pose proof (C_rc _ _ HC o) as RC.
+  rewrite (C_dead _ _ HC Hc), cnt_nil, He, Ht in RC. rewrite RC in L. cbn [Nat.eqb] in L. rewrite Hk in L. exact L.
+Qed.
+
+Lemma all_fin_tot f o (s : sysD) : all_fin glob loc fin s = true -> tot f o (thr s) = 0.
+Proof.
+  unfold all_fin, tot. induction (thr s) as [|l r IH]; [reflexivity|]. cbn [forallb map]. intros H.
+  apply andb_true_iff in H as [H1 H2]. rewrite list_sum_cons, (IH H2). unfold fin in H1.
+  destruct (stk l); [reflexivity|discriminate].
+Qed.
+
+Lemma destroyed_when_done c progs s o : R c progs s -> all_fin glob loc fin s = true -> cstate (gl s) = 2 ->
+  created (gl s) o = true -> ext (gl s) o = 0 -> dcnt (gl s) o = 1.
+Proof.
+  intros HR Hf Hc Hk He.
+  pose proof (destroyed_at_the_latest c progs s o HR Hc Hk He (all_fin_tot irefs o s Hf)) as H.
+  rewrite (all_fin_tot idtor o s Hf) in H. lia.
+Qed.
+
+Lemma no_leak c progs s o : R c progs s -> created (gl s) o = true -> rc (gl s) o = 0 ->
+  dcnt (gl s) o + tot idtor o (thr s) = 1.
+Proof.
+  intros HR Hk Hr. destruct (R_inv _ _ _ HR) as [HC _]. pose proof (C_life _ _ HC o) as L. rewrite Hr in L. cbn in L.
+  rewrite Hk in L. exact L.
+Qed.
+
+Lemma use_count_exact c progs s o : R c progs s ->
+  rc (gl s) o = cnt o (vec (gl s)) + ext (gl s) o + tot irefs o (thr s).
+Proof. intros HR. destruct (R_inv _ _ _ HR) as [HC _]. apply (C_rc _ _ HC). Qed.
+
+Lemma conservation c progs s o : R c progs s ->
+  cnt o (addlog (gh (gl s))) = cnt o (vec (gl s)) + tot crefs o (thr s) + cnt o (rlog (gh (gl s))).
+Proof. intros HR. destruct (R_inv _ _ _ HR) as [HC _]. apply (C_cons _ _ HC). Qed.
+
+Lemma reaped_is_local c progs s o : R c progs s -> In o (reaped (gh (gl s))) ->
+  cnt o (vec (gl s)) = 0 /\ ext (gl s) o = 0 /\ tot arefs o (thr s) = 0 /\ rc (gl s) o <= 1.
+Proof. intros HR Ho. destruct (R_inv _ _ _ HR) as [HC _]. destruct (C_reaped _ _ HC o Ho) as [A [B [C' [D _]]]]. auto. Qed.
+
+(* ---------- callbacks ---------- *)
+Lemma head_cb_ok c progs s t i : R c progs s -> head_is s t i -> cb_ok (gl s) i.
+Proof.
+  intros HR [l [st [Hl Hs]]]. destruct (R_inv _ _ _ HR) as [_ [_ HB]]. apply (B_ok _ _ HB t).
+  rewrite (stk_of_at _ _ _ Hl), Hs. left. reflexivity.
+Qed.
+Lemma callback_once_before_dtor c progs s t o : R c progs s -> hascb (cf (gl s)) = true ->
+  head_is s t (IDtor SRC_CLEAR o) -> cbc (gl s) o = 1.
+Proof. intros HR Hc Hh. apply (head_cb_ok c progs s t _ HR Hh eq_refl Hc). Qed.
+Lemma callback_at_most_once c progs s o : R c progs s -> cbc (gl s) o <= 1.
+Proof. intros HR. destruct (R_inv _ _ _ HR) as [_ [_ HB]]. apply (B_one _ _ HB). Qed.
+Lemma callback_only_reaped c progs s o : R c progs s -> cbc (gl s) o >= 1 -> In o (reaped (gh (gl s))).
+Proof. intros HR. destruct (R_inv _ _ _ HR) as [_ [_ HB]]. apply (B_reap _ _ HB). Qed.
+Lemma no_callback_without_function c progs s : R c progs s -> hascb (cf (gl s)) = false -> cblog (gh (gl s)) = [].
+Proof. intros HR. destruct (R_inv _ _ _ HR) as [_ [_ HB]]. apply (B_nocb _ _ HB). Qed.
+(* a callback runs on a live object it has not been called on before: never after or during the destructor *)
+Lemma callback_before_dtor c progs s t o rest ec esz : R c progs s -> head_is s t (ICb o rest ec esz) ->
+  cbc (gl s) o = 0 /\ dcnt (gl s) o = 0 /\ tot idtor o (thr s) = 0 /\ rc (gl s) o = 1 /\ In o (reaped (gh (gl s))).
+Proof.
+  intros HR Hh. destruct (head_cb_ok c progs s t _ HR Hh) as [K1 [K2 [K3 [K4 [K5 K6]]]]].
+  assert (In o ec) as Oec by (apply K3; left; reflexivity).
+  pose proof (head_tot irefs s t _ o Hh) as T. cbn [irefs] in T. apply cnt_In in Oec.
+  pose proof (use_count_exact c progs s o HR) as RC.
+  destruct (owned_not_destroyed c progs s o HR) as [D1 D2]; [lia|].
+  assert (In o (reaped (gh (gl s)))) as Rp by (apply K6, cnt_In; exact Oec).
+  destruct (reaped_is_local c progs s o HR Rp) as [_ [_ [_ R1]]].
+  repeat split; auto; [apply K4; left; reflexivity|lia].
+Qed.
+
+(* C20 clause: a throwing callback.  The step that throws leaves destroyObjects() with: the remaining callbacks
+   dropped, the whole local vector still to be released (so every selected object is destroyed, outside the
+   lock), and the function returning elementSize normally. *)
+Lemma callback_throw c progs s t o rest ec esz cc r : R c progs s -> head_is s t (ICb o rest ec esz) ->
+  memn (ncb (gl s)) (throws (cf (gl s))) = true ->
+  exists g', exec t cc (gl s) r (ICb o rest ec esz) =
+             Some (g', r, [IClear SRC_UNWIND ec; ISetRv (zn esz)], [E K_CALL 0 (fid_cb o); E K_THROW 0 (zn (ncb (gl s)))]) /\
+             mtx g' = mtx (gl s) /\ mtx (gl s) <> Some t /\
+             incl (o :: rest) ec /\ (forall y, In y rest -> cbc g' y = 0) /\ (forall y, In y ec -> In y (reaped (gh g'))).
+Proof.
+  intros HR Hh Ht. destruct (head_cb_ok c progs s t _ HR Hh) as [K1 [K2 [K3 [K4 [K5 K6]]]]].
+  eexists. cbn [exec]. rewrite Ht. split; [reflexivity|]. cbn -[cnt].
+  destruct (R_inv _ _ _ HR) as [_ [HL _]]. destruct Hh as [l [st [Hl Hs]]].
+  repeat split; auto.
+  - pose proof (L_lock _ _ HL) as K. destruct (locked (cf (gl s))); [|congruence].
+    intros E. apply K in E. rewrite (stk_of_at _ _ _ Hl), Hs in E. discriminate.
+  - intros y Hy. unfold cbc. cbn -[cnt]. rewrite cnt_cons. inversion K2; subst.
+    destruct (Nat.eqb_spec o y) as [<-|Hne]; [contradiction|]. apply K4. right. exact Hy.
+Qed.
+
+(* ---------- user code and the lock ---------- *)
+Definition is_user (i : instr) : bool := match i with ICb _ _ _ _ | IDtor _ _ => true | _ => false end.
+Definition is_acquire (i : instr) : bool :=
+  match i with ISizeLock | IAddLock _ | IDoTry | IRelock _ | IDdTry _ | IDdTryA _ _ _ | IDdTryB _ _ _ => true | _ => false end.
+Definition is_timed (i : instr) : bool :=
+  match i with IDoTry | IRelock _ | IDdTry _ | IDdTryA _ _ _ | IDdTryB _ _ _ => true | _ => false end.
+
+Lemma owner_holds c progs s t : R c progs s -> mtx (gl s) = Some t -> holds (stk_of (thr s) t) = true.
+Proof.
+  intros HR Hm. destruct (R_inv _ _ _ HR) as [_ [HL _]]. pose proof (L_lock _ _ HL) as K.
+  destruct (locked (cf (gl s))); [apply K, Hm|congruence].
+Qed.
+Lemma user_code_outside_lock c progs s t i : R c progs s -> head_is s t i -> is_user i = true -> mtx (gl s) <> Some t.
+Proof.
+  intros HR [l [st [Hl Hs]]] Hu Hm. pose proof (owner_holds c progs s t HR Hm) as H.
+  rewrite (stk_of_at _ _ _ Hl), Hs in H. destruct i; discriminate.
+Qed.
+Lemma never_relocks_own_mutex c progs s t i : R c progs s -> head_is s t i -> is_acquire i = true -> mtx (gl s) <> Some t.
+Proof.
+  intros HR [l [st [Hl Hs]]] Hu Hm. pose proof (owner_holds c progs s t HR Hm) as H.
+  rewrite (stk_of_at _ _ _ Hl), Hs in H. destruct i; discriminate.
+Qed.
+Lemma mutual_exclusion c progs s t u : R c progs s -> locked (cf (gl s)) = true ->
+  holds (stk_of (thr s) t) = true -> holds (stk_of (thr s) u) = true -> t = u.
+Proof.
+  intros HR Hk Ht Hu. destruct (R_inv _ _ _ HR) as [_ [HL _]]. pose proof (L_lock _ _ HL) as K. rewrite Hk in K.
+  apply K in Ht. apply K in Hu. congruence.
+Qed.
+
+(* ---------- progress ---------- *)
+Lemma tstep_head_enabled t cc g l i st :
+  stk l = i :: st -> (visible g i = true -> exec t cc g (rv l) i <> None) -> exists r, tstep t cc g l = Some r.
+Proof.
+  intros Hs Hv. unfold tstep. rewrite Hs. destruct (visible g i).
+  - destruct (exec t cc g (rv l) i) as [[[[g1 r1] push] es1]|]; [|exfalso; apply Hv; reflexivity].
+    destruct (settle settle_fuel t g1 r1 (push ++ st) es1) as [[[g3 r3] st3] es3]. eexists; reflexivity.
+  - destruct (settle settle_fuel t g (rv l) (i :: st) []) as [[[g3 r3] st3] es3]. eexists; reflexivity.
+Qed.
+
+(* the owner of the mutex can always take its next step *)
+Lemma holder_enabled c progs s a cc : R c progs s -> mtx (gl s) = Some a -> enabledD s a cc.
+Proof.
+  intros HR Hm. pose proof (owner_holds c progs s a HR Hm) as H. unfold stk_of in H.
+  destruct (nth_error (thr s) a) as [l|] eqn:Hl; [|discriminate].
+  destruct (stk l) as [|i st] eqn:Hs; [discriminate|].
+  destruct (tstep_head_enabled a cc (gl s) l i st Hs) as [r Hr]; [|exists l, r; auto].
+  intros _. destruct i; try discriminate; cbn [exec].
+  - destruct (unlock (gl s)); discriminate.
+  - destruct (_ && _); [destruct (_ && _)|]; discriminate.
+  - destruct (_ <? _); discriminate.
+Qed.
+
+(* a timed acquisition can always complete (by timing out) *)
+Lemma timed_enabled (s : sysD) t i : head_is s t i -> is_timed i = true -> enabledD s t 2.
+Proof.
+  intros [l [st [Hl Hs]]] Ht.
+  destruct (tstep_head_enabled t 2 (gl s) l i st Hs) as [r Hr]; [|exists l, r; auto].
+  intros _. destruct i; try discriminate; cbn [exec]; unfold try_acq;
+    destruct (locked (cf (gl s))); [destruct (mtx (gl s))| | destruct (mtx (gl s))| |destruct (mtx (gl s))| |destruct (mtx (gl s))| |destruct (mtx (gl s))| ];
+    cbn; try discriminate.
+  all: destruct (scan _ _) as [ec r1]; destruct ec; [discriminate|]; destruct (sweep _ _ _); discriminate.
+Qed.
